@@ -178,8 +178,19 @@ pub struct Shared {
     /// register `MultiDispatcher` batches without the harness's event wrapper (engines that do
     /// not dispatch): exactly what a user of the library writes
     pub direct_multi: AtomicBool,
+    /// the caller of dispatch is itself unwinding (dispatch called from a destructor) and no
+    /// system panics in this round: `std::thread::panicking()` says nothing about the systems
+    pub caller_unwinding: AtomicBool,
 }
 impl Shared {
+    /// the event a window ends with: P while a panic unwinds it, D otherwise
+    pub fn end_kind(&self) -> char {
+        if std::thread::panicking() && !self.caller_unwinding.load(SeqCst) {
+            'P'
+        } else {
+            'D'
+        }
+    }
     pub fn new(ntags: usize) -> Arc<Shared> {
         Arc::new(Shared {
             log: Mutex::new(vec![]),
@@ -192,6 +203,7 @@ impl Shared {
             rendezvous_timeout_us: AtomicU64::new(2000),
             lifecycle: Mutex::new(vec![]),
             round: AtomicUsize::new(0),
+            caller_unwinding: AtomicBool::new(false),
             direct_multi: AtomicBool::new(false),
         })
     }
@@ -349,7 +361,7 @@ impl Drop for Data<'_> {
     fn drop(&mut self) {
         self.reads.clear();
         self.writes.clear();
-        let k = if std::thread::panicking() { 'P' } else { 'D' };
+        let k = self.shared.end_kind();
         self.shared.push(k, std::mem::take(&mut self.inst));
     }
 }
@@ -464,7 +476,7 @@ impl CtlCore {
         struct Win(Arc<Shared>, Vec<usize>);
         impl Drop for Win {
             fn drop(&mut self) {
-                let k = if std::thread::panicking() { 'P' } else { 'D' };
+                let k = self.0.end_kind();
                 self.0.push(k, std::mem::take(&mut self.1));
             }
         }
